@@ -161,6 +161,35 @@ def raising_handler_case(k, excname, seq):
     return out
 
 
+def reentrant_case(k, outer, inner):
+    """the handler of the k-th message of a datagram hands another datagram to the same endpoint (a gateway re-injecting
+    a tunnelled message; an in-process network whose peer answers synchronously): both datagrams are delivered
+    completely, each in its own order"""
+    m = menu()
+    log = []
+
+    class App(sd.SOMEIPDatagramProtocol):
+        def message_received(self, someip_message, addr, multicast):
+            log.append((someip_message, addr))
+            if addr[1] == 1 and sum(1 for x in log if x[1][1] == 1) == k + 1:
+                self.datagram_received(b"".join(refcodec.enc_someip(*m[i]) for i in inner), ("192.0.2.6", 2), False)
+
+    p = App()
+    try:
+        p.datagram_received(b"".join(refcodec.enc_someip(*m[i]) for i in outer), ("192.0.2.5", 1), False)
+    except Exception as e:  # noqa: BLE001
+        return [("datagram", f"reentrant-raises-{type(e).__name__}", f"{type(e).__name__}: {e}")]
+    got_outer = [x[0] for x in log if x[1][1] == 1]
+    got_inner = [x[0] for x in log if x[1][1] == 2]
+    out = []
+    if got_outer != [mk(*m[i]) for i in outer]:
+        out.append(("datagram", "reentrant-outer-incomplete", f"handler of message {k} of a datagram of {len(outer)} messages handed "
+                    f"another datagram to the endpoint: {len(got_outer)} of the outer messages were delivered"))
+    if got_inner != [mk(*m[i]) for i in inner]:
+        out.append(("datagram", "reentrant-inner-incomplete", f"{len(got_inner)} of {len(inner)} inner messages delivered"))
+    return out
+
+
 def adapter_case(multicast, seq):
     """the object asyncio's transport holds is the library's DatagramProtocolAdapter; the application keeps only the
     transport (asyncio's convention: the transport owns its protocol).  Datagrams handed to the adapter reach the
@@ -279,6 +308,13 @@ def check(ctx):
                 n += 1
                 distinct.add(("raising", k, excname, seq))
                 rec(raising_handler_case(k, excname, seq), dict(kind="raising-handler", k=k, exc=excname, seq=seq))
+    # (i) a handler that hands another datagram to the same endpoint while a datagram is being delivered
+    for outer in ((0, 1, 2), (4, 0), (1, 2, 5, 0, 4)):
+        for k in range(len(outer)):
+            for inner in ((0,), (2, 1), ()):
+                n += 1
+                distinct.add(("reentrant", outer, k, inner))
+                rec(reentrant_case(k, outer, inner), dict(kind="reentrant", k=k, outer=outer, inner=inner))
     # (h) through the adapter object that asyncio's transport holds
     for multicast in (False, True):
         for seq in ((0,), (1, 2, 5), (4, 0)):
@@ -308,6 +344,8 @@ def replay(ctx, body):
     case = body["case"]
     if case["kind"] == "two-datagrams":
         res = two_datagrams_case(tuple(case["seq"]), case["tail"])
+    elif case["kind"] == "reentrant":
+        res = reentrant_case(case["k"], tuple(case["outer"]), tuple(case["inner"]))
     elif case["kind"] == "adapter":
         res = adapter_case(bool(case["multicast"]), tuple(case["seq"]))
     elif case["kind"] == "raising-handler":
